@@ -392,7 +392,7 @@ func hot(c *simkit.Choices, x *simkit.Ctx) *simkit.Violation {
 	}
 	records := []int{130, 300, 1100, 4200}[c.N(4)]
 	if c.N(40) == 0 {
-		records = 66000
+		records = 30000
 	}
 	f := model.Formats[c.N(3)]
 	cd := common.ByName(f)
